@@ -818,6 +818,33 @@ func runC06(c *Ctx) {
 		}
 	}
 
+	// ---------- R7 a copied byte string has the length of the original (filexfer data/write payloads) ----------
+	if f := p.FuncIn(p.Sshfx, "(*Buffer).ConsumeByteSliceCopy"); f == nil {
+		c.missing("R7", "sshfx (*Buffer).ConsumeByteSliceCopy")
+	} else {
+		w := newZWorld(p)
+		z := w.get(f)
+		var data ssa.Value
+		eachInstr(f, func(in ssa.Instruction) {
+			if call, ok := in.(*ssa.Call); ok && calleeName(&call.Call) == "ConsumeByteSlice" {
+				data = call
+			}
+		})
+		if data == nil {
+			c.und("R7", "ConsumeByteSliceCopy source", p.Pos(f.Pos()), "the copy does not start from ConsumeByteSlice")
+		} else {
+			eachInstr(f, func(in ssa.Instruction) {
+				r, ok := in.(*ssa.Return)
+				if !ok || !isReturn(in) {
+					return
+				}
+				rl, dl := z.lenOf(r.Results[0], 0), z.lenOf(data, 0)
+				ok1, _ := z.prove(in, []lin{leq(rl, dl, 0), leq(dl, rl, 0)})
+				c.check(ok1, "R7", "ConsumeByteSliceCopy length", pos(in), "len(result) == len(consumed string) for every hint", "the copy returned by ConsumeByteSliceCopy can be shorter (or longer) than the string that was consumed, depending on the hint buffer: a reused DataPacket/WritePacket decodes a truncated payload")
+			})
+		}
+	}
+
 	// ---------- R6 decode cursors are threaded ----------
 	{
 		n := 0
